@@ -142,6 +142,38 @@ impl DetectProp for C01 {
             s.incl = vec!["windows-1253".into(), "iso-8859-7".into(), "utf-8".into()];
             v.push(Case { bytes: b, sett: s, tag: format!("directed:size-boundary:{}", len) });
         }
+        // > 1 MB in a multi-byte encoding with a damaged edge: cut inside the last character, or a stray
+        // trail byte in front (a multi-byte decoder must see the whole payload strictly, edges included)
+        {
+            let samples: &[(&str, &str)] = &[("utf-8", "Привет, мир! Это проверка кодировки, довольно длинная строка текста. "), ("utf-8", "日本語のテキストです。文字コードの判定を試します。"), ("gbk", "这是一个用来测试编码检测的中文句子，内容并不重要。"), ("shift_jis", "日本語のテキストです。文字コードの判定を試します。"), ("euc-kr", "한국어 문장입니다. 인코딩 판별을 시험합니다. ")];
+            for (k, (enc, text)) in samples.iter().enumerate() {
+                if !thorough && k != 0 && k != 2 {
+                    continue;
+                }
+                let unit = enc_bytes(text, enc).unwrap_or_default();
+                if unit.is_empty() {
+                    continue;
+                }
+                let mut base: Vec<u8> = Vec::with_capacity(1_050_000);
+                while base.len() < 1_000_100 {
+                    base.extend_from_slice(&unit);
+                }
+                for damage in 0..3 {
+                    if !thorough && damage != k % 3 && damage != 0 {
+                        continue;
+                    }
+                    let mut b = base.clone();
+                    match damage {
+                        0 => { b.pop(); }                          // cut inside the last character
+                        1 => { b.insert(0, unit[unit.len() - 1]); } // stray trail byte in front
+                        _ => { b.pop(); b.pop(); b.insert(0, 0xA9); }
+                    }
+                    let mut s = Sett::default();
+                    s.incl = vec![enc.to_string(), "utf-8".into(), "ascii".into()];
+                    v.push(Case { bytes: b, sett: s, tag: format!("directed:large-multibyte-damaged-edge:{}:{}", enc, damage) });
+                }
+            }
+        }
         if thorough {
             v.push(Case { bytes: big(1_000_050, 499_990), sett: s.clone(), tag: "directed:large-filtered:head".into() });
             for (len, pos) in [(1_000_050usize, 900_000usize), (999_990, 700_000), (1_200_000, 1_199_999)] {
